@@ -300,7 +300,7 @@ pub fn specs() -> Vec<PropSpec> {
             engine: "chaos",
             budget_s: (50, 600),
             level: "exploration",
-            rule: "a live node (2 reader threads, verifier pool, writer) and an honest peer; per run a data model generated over awkward identifiers (storage-engine and language keywords, digits first, '_', Unicode letters) with every field type, then 10-50 inputs: requests generated from the grammar over that model (creations with nested references, updates, deletions, queries with filters on every type, null and JSON filters, search, ordering and paging, limits, aliases, aggregates, JSON selectors), every parameter kind against every field type, character-level mutations of requests and of the model text, hostile answers of every kind while the node pulls (garbage, truncated, empty, huge length prefix, other kind, rows with empty / short / long keys and signatures, empty entity, broken JSON, extreme dates, no room), hostile requests on its serving side, restarts; after EVERY input: no panic in the process (panic hook), every service thread alive (per-node thread registry), no hang, and a probe mutation, probe query and four signature verifications answered normally; a damaged instance is reported and restarted so the run goes on; distinct = distinct schedule signature (input shapes and verdicts)",
+            rule: "a live node (2 reader threads, verifier pool, writer) and an honest peer; per run a data model generated over awkward identifiers (storage-engine and language keywords, digits first, '_', Unicode letters) with every field type, then 10-50 inputs: requests generated from the grammar over that model (creations with nested references, updates, deletions, queries with filters on every type, null and JSON filters, search, ordering and paging, limits, aliases, aggregates, JSON selectors), every parameter kind against every field type, character-level mutations of requests and of the model text, hostile answers of every kind while the node pulls (garbage, truncated, empty, huge length prefix, other kind, rows with empty / short / long keys and signatures, empty entity, broken JSON, extreme dates, no room), hostile requests on its serving side, local use of whatever was received, requests on the system entities, parameter sets that are no object / nested / out of range, fresh instances started on mutated model texts, restarts; after EVERY input: no panic in the process (panic hook), every service thread alive (per-node thread registry), no hang, and a probe mutation, probe query and four signature verifications answered normally; a damaged instance is reported and restarted so the run goes on; distinct = distinct schedule signature (input shapes and verdicts)",
             assumptions: &[
                 "'rejected by the database engine' = the error returned is the storage-engine variant (rusqlite) of the database error; any other error is a legitimate refusal",
                 "wire frames below typed messages (QUIC frame lengths) are outside the simulated transport; hostile bytes enter as message payloads",
